@@ -41,7 +41,7 @@ Proof.
   { eapply wpp_conseq; [apply (cost_rt_insert_no_grow c e)| |]; cbn; [|auto].
     intros ? s' [Hw _]. unfold within in Hw. cbn in Hw. lia. }
   eapply wp_conseq; [apply (wp_wpp_and _ _ _ _ _ _ Hspec Hcost)| |]; cbn.
-  - intros ? s' [(HI' & Habs' & HB' & Hcap & Hlo) Hal].
+  - intros ? s' [(HI' & Habs' & _ & HB' & Hcap & Hlo) Hal].
     split; [exact HI'|]. split; [exact Habs'|]. split; [exact HB'|]. split; [exact Hcap|].
     unfold left, rt_capacity, hlen in *. destruct (lo (s_rt s)) as [o|].
     + destruct Hlo as [Hn Hlo]. destruct (lo (s_rt s')) as [o'|].
